@@ -9,7 +9,7 @@ From Coq Require Import NArith Strings.Byte.
 
 Extraction Language OCaml.
 Extraction "model.ml"
-  Run.init_world Run.step Run.status_code Run.event Run.world
+  Run.init_world Run.init_world_at Run.step Run.status_code Run.event Run.world
   Store.s_mem Store.s_usage Store.s_now Store.s_cas Store.r_ts Store.total
   Conn.cn_buf Conn.cn_skip
   N.add N.mul N.div_eucl N.of_nat N.to_nat Byte.to_N Byte.of_N Base.blen.
